@@ -195,6 +195,18 @@ def regMapGemmini : RegMap :=
     barrier := 0x0BAD
     reserved := [] }
 
+/-- `SNAXGEMMXAccelerator.from_config`: the route of a system configuration file.  Input: per configured
+streamer `(temporal_dims, len(spatial_dims))`; the five streamers A, B, D8, C, D32 get fixed option sets, D8/C/D32
+the temporal dims `("r",) + ("n",) * (t - 1)` (so at least one).  Fewer than five entries: `IndexError`. -/
+def gemmxFromConfig : List (Nat × Nat) → Option Cfg
+  | a :: b :: c :: d :: e :: _ =>
+    some [⟨a.1, a.2, true, false, false, false, true, []⟩,
+          ⟨b.1, b.2, true, false, false, false, true, []⟩,
+          ⟨max c.1 1, c.2, true, false, false, false, false, []⟩,
+          ⟨max d.1 1, d.2, true, true, false, true, false, []⟩,
+          ⟨max e.1 1, e.2, true, false, false, false, false, []⟩]
+  | _ => none
+
 /-- The field tuples `self.fields` / `self.launch_fields` of the accelerator objects (what setup ops are
 built from), to be compared with the key order of the declared dictionaries. -/
 def aluFieldNames (cfg : Cfg) : List String := setupFields cfg ++ ["alu_mode", "loop_bound_alu"]
